@@ -77,7 +77,7 @@ class Val:
         return {"vk": self.k, "mode": self.mode}
 
     def evaluate(self, env, lrn):
-        ek, lk = env.k, lrn.k
+        ek, lk = env.params["ek"], lrn.params["lk"]
         _trace(self.trace, "%d %d %d" % (ek, lk, self.k))
         if (ek, lk) in self.boom:
             raise Exception("evaluation of (%d,%d,%d) fails by design" % (ek, lk, self.k))
